@@ -127,7 +127,12 @@ def discharge(
         out += side_res
         obligations = [ob for ob in obligations if ob.kind != "side"]
     if twin:
-        st, _, secs, _ = solve(base, None, timeout_s=timeout_s, tactics=tactics)
+        t0 = time.time()
+        wit = ctx.witness(base) if (ctx.gen_square or ctx.gen_square_v) else None
+        if wit is not None:
+            st, secs = "sat", time.time() - t0
+        else:
+            st, _, secs, _ = solve(base, None, timeout_s=timeout_s, tactics=tactics)
         out.append(
             Result(
                 name="vacuity-twin",
@@ -151,6 +156,26 @@ def discharge(
         if want and smt2:
             n_dumped += 1
         res = Result(name=ob.name, kind=ob.kind, status=st, seconds=secs, config=config, smt2=smt2 if want else None)
+        if st == "unknown" and (ctx.gen_square or ctx.gen_square_v or getattr(ctx, "_points", None)):
+            # evaluate at the concrete witness points: a point of the domain where the goal is false is a
+            # counterexample of the encoding (then replayed on the real code like any solver model)
+            for kpt in range(6):
+                try:
+                    pairs = ctx._point(kpt)
+                    full = base + list(ob.extra_assumptions)
+                    if ctx.witness(full, ks=(kpt,)) is None:
+                        continue
+                    if z3.is_false(z3.simplify(z3.substitute(goal, *pairs))):
+                        ms = z3.Solver()
+                        for var, val in pairs:
+                            ms.add(var == val)
+                        if str(ms.check()) == "sat":
+                            model = ms.model()
+                            st = res.status = "sat"
+                            res.detail = "goal false at a concrete witness point (found after solver unknown)"
+                            break
+                except Exception:  # noqa: BLE001
+                    continue
         if st == "unknown" and hunt_rounds:
             t1 = time.time()
             model = hunt(ctx, base + list(ob.extra_assumptions), z3.Not(goal), rounds=hunt_rounds, seed=hunt_seed)
@@ -237,6 +262,16 @@ def identity_obligations(name: str, lhs, rhs) -> list[Obligation]:
     if not comps:
         return [Obligation(f"{name}", z3.BoolVal(True), "identity")]
     return [Obligation(f"{name}::{label}", term == 0, "identity") for label, term in comps]
+
+
+def merge_lemma_obligations(ctx: Ctx) -> list[Obligation]:
+    """Lemmas justifying merged radical generators: the two radicands are equal."""
+    out = []
+    for k, (name, a, b) in enumerate(getattr(ctx, "merge_lemmas", [])):
+        for ob in identity_obligations(f"[lemma] merged radical {name}#{k}: radicands equal", a, b):
+            ob.kind = "lemma"
+            out.append(ob)
+    return out
 
 
 def side_obligations(ctx: Ctx) -> list[Obligation]:
